@@ -676,7 +676,7 @@ class GMM:
                                    for k in range(self.k)])
             covariance += empcov
             dx = np.reshape(empmeans - self.prior_means, (self.k, self.dim, 1))
-            addcov = np.array([np.sum(dx[k] ** 2, 0) for k in range(self.k)])
+            addcov = np.array([dx[k, :, 0] ** 2 for k in range(self.k)])
             apms = np.reshape(prior_shrinkage * pop / shrinkage, (self.k, 1))
             covariance += addcov * apms
             dof = self.prior_dof + pop + self.dim + 2
